@@ -118,9 +118,10 @@ theorem kept_apply {W₀ W : World} {Y : Forest} {R : List Nat} (k : Kept W₀ Y
     (hf : e.foreign Y.ids R) : Kept W₀ Y R (apply W e) := by
   obtain ⟨hn, hsy⟩ := hf
   cases e with
-  | rename s n =>
+  | rename p s n =>
     have hs : s ∉ R := hsy s (by simp [Edit.symbols])
-    refine ⟨k.mem, k.lt, fun x hx => ?_, k.deps⟩
+    have hp : p ∉ Y.ids := hn p (by simp [Edit.nodes])
+    refine ⟨List.mem_map.mpr ⟨Y, k.mem, map_updNode_of_not_mem p _ Y hp⟩, k.lt, fun x hx => ?_, k.deps⟩
     have : x ≠ s := fun h => hs (h ▸ hx)
     simp [apply, this, k.name x hx]
   | setDeps s ds =>
@@ -578,7 +579,7 @@ def witnessWorld : World :=
     nnode := 2
     trees := [.cons ⟨0, 0, none, none, some [0, 1]⟩ (.cons ⟨1, 1, some 1, none, none⟩ .nil .nil) .nil] }
 
-def witnessEdits : List Edit := [.rename 0 99]
+def witnessEdits : List Edit := [.rename 0 0 99]
 
 theorem witness_wf : WF witnessWorld := by
   refine ⟨?_, ?_, ?_⟩
@@ -602,7 +603,7 @@ theorem witness_onOriginal : ∀ e ∈ witnessEdits, e.onOriginal witnessWorld 0
   intro e he
   simp only [witnessEdits, List.mem_singleton] at he
   subst he
-  refine ⟨by simp [Edit.nodes], ?_⟩
+  refine ⟨by simp [Edit.nodes, witnessWorld], ?_⟩
   intro s hs
   simp only [Edit.symbols, List.mem_singleton] at hs
   subst hs
@@ -686,7 +687,7 @@ example : noSymbolInDatatypeB demoWorld (sub demoWorld 1) = false := by decide
 detaching the loop and re-pointing a reference are edits of the original side; they leave the view
 of the fixed copy unchanged, and change that of the pinned copy -/
 def demoEdits : List Edit :=
-  [.rename 1 901, .rename 2 902, .addSym 1 77 [1], .detach 2, .setSym 4 (some 5), .setDeps 3 [1]]
+  [.rename 1 1 901, .rename 1 2 902, .addSym 1 77 [1], .detach 2, .setSym 4 (some 5), .setDeps 3 [1]]
 
 example : view (run (copy true demoWorld 1) demoEdits) (copyTree true demoWorld 1)
     = view demoWorld (sub demoWorld 1) := by decide
@@ -704,7 +705,7 @@ example : Closed demoWorld (sub demoWorld 0) := by unfold Closed; decide
 example : ¬ Closed demoWorld (sub demoWorld 1) := by unfold Closed; decide
 example : ∀ e ∈ demoEdits, e.onOriginal demoWorld 1 := by
   unfold demoEdits Edit.onOriginal; decide
-example : ∀ e ∈ [Edit.rename 8 5, .detach 10, .addSym 9 3 [8], .attach 9 0 10], e.onCopy demoWorld := by
+example : ∀ e ∈ [Edit.rename 9 8 5, .detach 10, .addSym 9 3 [8], .attach 9 0 10], e.onCopy demoWorld := by
   unfold Edit.onCopy; decide
 
 end C15
